@@ -28,7 +28,9 @@ contract(M, 'cfg_cyk_matrix', {'G': 'CFG', 'w': 'Word', 'verbose': 'Bool'}, retu
                 5: {'ghost': 'i', 'invariant': _BASE + ['1 <= m', 'm < n', '0 <= i', _EXACT % '(j0 - i0 < m or (j0 - i0 == m and i0 < i))', _EMPTY % '(j0 - i0 < m or (j0 - i0 == m and i0 < i))']},
                 6: {'ghost': 'k', 'invariant': _BASE + ['1 <= m', 'm < n', '0 <= i', 'i < n - m', 'j == i + m', 'i <= k',
                                                       _EXACT % '((j0 - i0 < m or (j0 - i0 == m and i0 < i)) and not (i0 == i and j0 == j))', _EMPTY % '(j0 - i0 < m or (j0 - i0 == m and i0 <= i))',
-                                                      _IJ_S % 'False', _IJ_C]},
+                                                      _IJ_S % 'False', _IJ_C],
+                    # the crux, stated on its own so that the outer invariant is a case split: after all split points the cell (i, j) is exact
+                    'after': ['all((A in lookup(X, (i, j))) == (A in G.V and der(G, A, w, i, j)) for A in atoms())']},
                 7: {'ghost': 'donePairs', 'invariant': _BASE + ['1 <= m', 'm < n', '0 <= i', 'i < n - m', 'j == i + m', 'i <= k', 'k < j',
                                                               _EXACT % '((j0 - i0 < m or (j0 - i0 == m and i0 < i)) and not (i0 == i and j0 == j))', _EMPTY % '(j0 - i0 < m or (j0 - i0 == m and i0 <= i))',
                                                               _IJ_S % 'any(has_bin(G, A, B, C, len(R)) for (B, C) in donePairs)', _IJ_C,
